@@ -2,6 +2,7 @@ package common
 
 import (
 	"github.com/makiuchi-d/gozxing"
+	"github.com/makiuchi-d/gozxing/verifhook"
 )
 
 type GridSampler interface {
@@ -16,10 +17,12 @@ type GridSampler interface {
 var gridSampler GridSampler = NewDefaultGridSampler()
 
 func GridSampler_SetGridSampler(newGridSampler GridSampler) {
+	verifhook.Touch("pkg.gridSampler", nil, true)
 	gridSampler = newGridSampler
 }
 
 func GridSampler_GetInstance() GridSampler {
+	verifhook.Touch("pkg.gridSampler", nil, false)
 	return gridSampler
 }
 
